@@ -30,6 +30,23 @@ def goenv(extra=None):
     return e
 
 
+_NETNS = None
+
+
+def netns_prefix():
+    """Each test process gets a private network namespace (own loopback, own ephemeral port space):
+    thousands of short-lived loopback connections per shard otherwise exhaust the shared port range
+    ("bind: address already in use") when many shards run at once. Falls back to no wrapping."""
+    global _NETNS
+    if _NETNS is None:
+        try:
+            p = subprocess.run(["unshare", "-n", "sh", "-c", "ip link set lo up && echo ok"], capture_output=True, text=True, timeout=20)
+            _NETNS = p.returncode == 0 and "ok" in p.stdout
+        except Exception:
+            _NETNS = False
+    return ["unshare", "-n", "sh", "-c", 'ip link set lo up; exec "$@"', "sh"] if _NETNS else []
+
+
 def seed_for(base, prop, legname, shard):
     h = hashlib.sha256(f"{base}|{prop}|{legname}|{shard}".encode()).digest()
     return (int.from_bytes(h[:4], "big") & 0x7FFFFFFF) | 1
@@ -59,7 +76,7 @@ def run_shard(binary, test, checks, seed, outpath, timeout_s, extra_env, cwd, ti
     env["VERIF_TIER"] = tier
     env["VERIF_RAPID_SEED"] = str(seed)
     env["VERIF_TMP"] = os.path.dirname(outpath)
-    cmd = [binary, "-test.run", f"^({test})$", f"-rapid.checks={checks}", f"-rapid.seed={seed}",
+    cmd = netns_prefix() + [binary, "-test.run", f"^({test})$", f"-rapid.checks={checks}", f"-rapid.seed={seed}",
            "-rapid.nofailfile", "-rapid.shrinktime=60s", f"-test.timeout={timeout_s}s", "-test.count=1"]
     t0 = time.time()
     try:
@@ -75,7 +92,7 @@ def replay_one(binary, path, cwd, extra_env=None, timeout_s=120):
     env["VERIF_REPLAY"] = path
     env.pop("VERIF_OUT", None)
     try:
-        p = subprocess.run([binary, "-test.run", "^TestReplay$", "-test.count=1", f"-test.timeout={timeout_s}s"],
+        p = subprocess.run(netns_prefix() + [binary, "-test.run", "^TestReplay$", "-test.count=1", f"-test.timeout={timeout_s}s"],
                            cwd=cwd, env=env, capture_output=True, text=True, timeout=timeout_s + 30, errors="replace")
         out, rc = p.stdout + p.stderr, p.returncode
     except subprocess.TimeoutExpired:
@@ -292,6 +309,9 @@ def run(prop, spec, a, base_seed, workdir, rundir, t_start):
             samples.append({"check": name, "case": s})
     for name in checks:
         checks[name].pop("samples", None)
+    skipped = sum((c.get("extra") or c.get("Extra") or {}).get("inconclusive:harness-resource", 0) for c in checks.values())
+    if skipped > max(10, 0.02 * evaluations) and not violations:
+        inconclusive.append(f"{skipped} cases could not be executed for lack of a harness resource (ports / file descriptors)")
     if evaluations and requested_total and evaluations < 0.5 * requested_total and not violations:
         inconclusive.append(f"only {evaluations} of {requested_total} requested cases were executed")
 
